@@ -29,6 +29,14 @@ class UserErrorWithArgs(Exception):
 EXC_CLASSES.append(UserError)
 
 
+class UnprintableError(Exception):
+    """An ordinary exception whose text cannot be produced (str() raises TypeError): whoever reports it must not fail.
+    Used by name only (C04: a notification stays unanswered whatever its method raises)."""
+
+    def __str__(self):
+        return 32603   # noqa  (not a string: str(ex) raises TypeError)
+
+
 class UserBaseException(BaseException):
     """User-defined exception deriving from BaseException directly."""
 
